@@ -194,6 +194,55 @@ pub mod proofs {
         kani::cover!(empties >= 1 && k_used == 2, "a recv reported empty and the consumer used all rounds");
     }
 
+    /// Two producers on two threads (the documented multi-producer mode: the same
+    /// handler running on two threads), one send each; the channel is dropped
+    /// afterwards.  K = 3, <= 1 spurious CAS failure.
+    #[kani::proof]
+    #[kani::stub(alloc::alloc::dealloc_nonnull, noop_dealloc)]
+    #[kani::unwind(7)]
+    pub fn c07_lr_p2_k3() {
+        let ch: Channel<Token> = Channel::new();
+        vshim::set_mode_lr(3, 1, 1);
+        vshim::hb_enable();
+        vshim::thread_start(0);
+        send(&ch, 1);
+        vshim::thread_start(1);
+        send(&ch, 2);
+        final_checks(2, 2);
+        let k_used = unsafe { T::send_end[2] / NT };
+        let overlapped = unsafe { T::send_start[2] < T::send_end[1] && T::send_start[1] < T::send_end[2] };
+        drop(ch);
+        drop_checks(2);
+        verdict();
+        kani::cover!(overlapped, "the two sends overlapped in time");
+        kani::cover!(k_used == 2, "the second producer used all rounds");
+    }
+
+    /// 1 producer (2 sends), 1 consumer (2 recvs), K = 3.
+    #[kani::proof]
+    #[kani::stub(alloc::alloc::dealloc_nonnull, noop_dealloc)]
+    #[kani::unwind(7)]
+    pub fn c07_lr_p1x2_c1_k3() {
+        let ch: Channel<Token> = Channel::new();
+        vshim::set_mode_lr(3, 1, 1);
+        vshim::hb_enable();
+        vshim::thread_start(0);
+        send(&ch, 1);
+        send(&ch, 2);
+        vshim::thread_start(1);
+        recv(&ch);
+        recv(&ch);
+        final_checks(2, 2);
+        let got_all = unsafe { T::got[1] == 1 && T::got[2] == 1 };
+        let empties = unsafe { (R::tag[0] == 0) as u8 + (R::tag[1] == 0) as u8 };
+        let k_used = unsafe { R::end[1] / NT };
+        drop(ch);
+        drop_checks(2);
+        verdict();
+        kani::cover!(got_all, "both values received");
+        kani::cover!(empties >= 1 && k_used == 2, "a recv reported empty and the consumer used all rounds");
+    }
+
     /// Reuse of a cell: the consumer takes the only queued value, the producer's
     /// send then reuses that very cell (only one index circulates).
     #[kani::proof]
